@@ -293,6 +293,16 @@ class MExpander(Expander):
         if short == "solve" and len(node.args) == 2:
             X = self.need_m(self.eval(node.args[0], env))
             B = self.need_m(self.eval(node.args[1], env))
+            kws = {k.arg: k.value for k in node.keywords}
+            extra = set(kws) - {"assume_a", "sym_pos", "check_finite", "overwrite_a", "overwrite_b", "lower"}
+            if extra or "transposed" in kws:
+                raise Unsupported(f"`{ast.unparse(node)[:80]}`: keyword(s) {sorted(extra)} of solve are outside the algebra")
+            structured = ("assume_a" in kws and ast.unparse(kws["assume_a"]).strip("'\"") not in ("gen", "general")) or \
+                         ("sym_pos" in kws and ast.unparse(kws["sym_pos"]) != "False")
+            if structured and not X.T().eq(X):
+                # the solver is told the matrix is symmetric / positive definite and reads one triangle only: for a matrix that is
+                # not symmetric in normal form the result is the inverse of ANOTHER matrix - a distinct atom, equal to nothing else
+                return M.atom(f"inv_assumed_symmetric({X})", 2).matmul(B)
             return M.atom(f"inv({X})", 2).matmul(B)
         if short in ("array", "asarray", "copy", "squeeze"):
             v = self.eval(node.args[0], env)
